@@ -58,11 +58,13 @@ enum Family {
     BlocksPerFunction,
     TotalBlocks,
     SummaryEvents,
+    SummaryEventsWithLocals,
     LivenessEvents,
 }
 
-const FAMILIES: [Family; 8] = [
+const FAMILIES: [Family; 9] = [
     Family::SummaryEvents,
+    Family::SummaryEventsWithLocals,
     Family::LivenessEvents,
     Family::BlocksPerFunction,
     Family::Calls,
@@ -82,6 +84,7 @@ impl Family {
             Family::BlocksPerFunction => "blocks-in-one-function",
             Family::TotalBlocks => "total-blocks",
             Family::SummaryEvents => "summary-events",
+            Family::SummaryEventsWithLocals => "summary-events-functions-with-a-local-each",
             Family::LivenessEvents => "liveness-events",
         }
     }
@@ -94,6 +97,7 @@ impl Family {
             Family::BlocksPerFunction => 30_000,
             Family::TotalBlocks => 200_000,
             Family::SummaryEvents => 6_000,
+            Family::SummaryEventsWithLocals => 4_000,
             Family::LivenessEvents => 8_000,
         }
     }
@@ -178,6 +182,18 @@ impl Family {
                 for k in 0..n {
                     s.push_str(&format!("do sf{k}() start end\n"));
                 }
+                // documented bound: functions x (functions + 2 x locals + 2), with the root, the
+                // tail function and the tail's one local
+                let f = n as u64 + 2;
+                own = Some(("summary events", f * (f + 2 + 2)));
+            }
+            Family::SummaryEventsWithLocals => {
+                for k in 0..n {
+                    s.push_str(&format!("do sl{k}(p) start end\n"));
+                }
+                let f = n as u64 + 2;
+                let l = n as u64 + 1;
+                own = Some(("summary events", f * (f + 2 * l + 2)));
             }
             Family::LivenessEvents => {
                 for k in 0..n {
@@ -322,6 +338,7 @@ impl Space for LimitSpace {
             Family::BlocksPerFunction => caps.max_blocks_per_function as usize / 3,
             Family::TotalBlocks => caps.max_scopes as usize - 20,
             Family::SummaryEvents => (caps.max_summary_events as f64).sqrt() as usize - 3,
+            Family::SummaryEventsWithLocals => (caps.max_summary_events as f64 / 3.0).sqrt() as usize - 2,
             Family::LivenessEvents => (caps.max_liveness_events as f64).sqrt() as usize - 3,
         }
         .clamp(2, fam.upper());
@@ -398,9 +415,16 @@ impl Space for LimitSpace {
             if own_count != observed {
                 return fail("observed-count-differs-from-harness-count", flip, json!({"metric": metric, "library": observed, "harness": own_count}));
             }
-            if observed != limit + 1 {
+            // metrics that move in steps of one flip exactly one above the cap
+            if !metric.contains("events") && observed != limit + 1 {
                 return fail("flip-not-exactly-above-the-cap", flip, json!({"metric": metric, "observed": observed, "limit": limit}));
             }
+        }
+        if let Some((own_metric, below)) = fam.build(flip - 1).2
+            && own_metric == metric
+            && below > limit
+        {
+            return fail("program-over-the-documented-bound-not-limited", flip - 1, json!({"metric": metric, "harness_count": below, "limit": limit}));
         }
         // --- full runs below / at / above
         let resource_msg = limits::AnalysisLimit { metric: "", observed: 0, limit: 0 }.message();
